@@ -406,10 +406,23 @@ theorem sizeOk_of_inside (endp : Option Nat) (b off size stop : Nat) (h : Inside
   | none => rfl
   | some e =>
     have := h e rfl
-    simp only
-    split
-    · simp; omega
-    · rfl
+    simp; omega
+
+/-- the size check is sound: what passes it lies inside the view -/
+theorem sizeOk_sound (e b off size : Nat) (h : sizeOk (some e) (some b) off size = true) : b + off + size ≤ e := by
+  unfold sizeOk at h
+  simp at h
+  omega
+
+theorem sizeCheck_sound (e : Nat) (begin : Option Nat) (off size : Nat) (h : sizeCheck (some e) begin off size = .ok ()) :
+    ∃ b, begin = some b ∧ b + off + size ≤ e := by
+  unfold sizeCheck at h
+  split at h
+  · rename_i hs
+    cases begin with
+    | none => simp [sizeOk] at hs
+    | some b => exact ⟨b, rfl, sizeOk_sound e b off size hs⟩
+  · simp at h
 
 theorem sizeCheck_of_inside (endp : Option Nat) (b off size stop : Nat) (h : Inside endp stop) (hb : b + off + size ≤ stop) :
     sizeCheck endp (some b) off size = .ok () := by
@@ -549,6 +562,72 @@ theorem stepSet_spec (w : Wrapper) (value : List Nat) (hv : v.lvl = v.addr + hdr
           IDM.set_value, IDM.set_last_value, bind, Except.bind, hI1, e2] <;> omega)
 
 end field
+
+/-! ### what a checked build reads or writes lies inside the view
+    (provable since `SBEPP_SIZE_CHECK` rejects `begin > end`) -/
+
+theorem ptr_shape (e : Nat) (c : Bool) (ptr : Option Nat) (off size : Nat) (F : Nat → Step) (st : Step)
+    (h : (do assertCursor (some e) c; sizeCheck (some e) ptr off size; let p ← deref ptr; Except.ok (F p) : Out Step) = .ok st) :
+    ∃ p, ptr = some p ∧ p + off + size ≤ e ∧ st = F p := by
+  simp only [bind, Except.bind] at h
+  split at h
+  · simp at h
+  · split at h
+    · simp at h
+    · rename_i hs
+      obtain ⟨b, hb, hle⟩ := sizeCheck_sound e ptr off size (by
+        cases hsc : sizeCheck (some e) ptr off size with
+        | error x => rw [hsc] at hs; simp at hs
+        | ok u => rfl)
+      subst hb
+      simp only [deref, Except.ok.injEq] at h
+      exact ⟨b, rfl, hle, h.symm⟩
+
+theorem view_shape (e addr abs size : Nat) (st0 st : Step)
+    (h : (do sizeCheck (some e) (some addr) abs size; Except.ok st0 : Out Step) = .ok st) :
+    addr + abs + size ≤ e ∧ st = st0 := by
+  simp only [bind, Except.bind] at h
+  split at h
+  · simp at h
+  · rename_i hs
+    obtain ⟨b, hb, hle⟩ := sizeCheck_sound e (some addr) abs size (by
+      cases hsc : sizeCheck (some e) (some addr) abs size with
+      | error x => rw [hsc] at hs; simp at hs
+      | ok u => rfl)
+    simp only [Option.some.injEq] at hb
+    subst hb
+    simp only [Except.ok.injEq] at h
+    exact ⟨hle, h.symm⟩
+
+/-- **checked field accesses stay inside the view**: in a checked build, whenever
+    a cursor-based getter of a scalar field returns (through any of the five
+    wrappers, at a legal position or not), the bytes it returned were read from
+    `[start, start + size)` with `start + size ≤ end` -/
+theorem checked_get_inside (w : Wrapper) (v : LView) (buf : List Nat) (cur : Option Nat) (a : Acc) (e : Nat) (st : Step)
+    (he : v.endp = some e) (hnv : a.isView = false) (h : stepField w v buf cur a = .ok st) :
+    ∃ start, start + a.size ≤ e ∧ (w ≠ .skip → st.res = .value (slice buf start a.size)) := by
+  cases w <;> cases hl : a.last <;> simp only [stepField, hnv, hl] at h
+  all_goals first
+    | (simp only [C.get_value, C.get_last_value, DM.get_value, DM.get_last_value, S.get_value, S.get_last_value, he] at h
+       obtain ⟨p, _, hle, hst⟩ := ptr_shape e _ cur a.rel a.size _ st h
+       exact ⟨p + a.rel, by omega, fun hne => by first | exact absurd rfl hne | rw [hst]⟩)
+    | (simp only [I.get_value, I.get_last_value, IDM.get_value, IDM.get_last_value, he] at h
+       obtain ⟨hle, hst⟩ := view_shape e v.addr a.abs a.size _ st h
+       exact ⟨v.addr + a.abs, by omega, fun _ => by rw [hst]⟩)
+
+/-- the same for setters: the bytes are written at `start` with `start + size ≤ end` -/
+theorem checked_set_inside (w : Wrapper) (v : LView) (buf : List Nat) (cur : Option Nat) (a : Acc) (value : List Nat)
+    (e : Nat) (st : Step) (he : v.endp = some e) (h : stepSet w v buf cur a value = .ok st) :
+    ∃ start, start + a.size ≤ e ∧ st.buf = writeAt buf start value := by
+  cases w <;> cases hl : a.last <;> simp only [stepSet, hl] at h
+  all_goals first
+    | (simp only [C.set_value, C.set_last_value, DM.set_value, DM.set_last_value, he] at h
+       obtain ⟨p, _, hle, hst⟩ := ptr_shape e _ cur a.rel a.size _ st h
+       exact ⟨p + a.rel, by omega, by rw [hst]⟩)
+    | (simp only [I.set_value, I.set_last_value, IDM.set_value, IDM.set_last_value, he] at h
+       obtain ⟨hle, hst⟩ := view_shape e v.addr a.abs a.size _ st h
+       exact ⟨v.addr + a.abs, by omega, by rw [hst]⟩)
+    | simp at h
 
 /-! ### positions never go backwards -/
 
@@ -1335,5 +1414,88 @@ theorem geoWalk_eq_geoTree (bo : ByteOrder) (sp : List FieldSpan) (bl : Nat) (lv
     have h3 := dataGeos_tree bo ds dvs buf (pre ++ block ++ flattenGs bo gs gvs) post hds hb2
     simp only [List.length_append, hblk] at h1 h2 h3
     simp only [geoWalk, geoTree, LVal.block, LVal.groups, LVal.datas, hblk, h1, h2, h3]
+
+/-! ### cursor ranges -/
+
+/-- **sub-range clause**: in a checked build, for every `pos` and `count`, the
+    range object a group view hands out is exactly the documented one —
+    `[0, size)`, `[pos, size)`, `[pos, pos + count)` with the block length of the
+    dimension header — and a violated precondition is reported -/
+theorem mkRange_spec (bo : ByteOrder) (buf : List Nat) (e : Nat) (dim : Dim) (p : Nat) (k : RangeKind)
+    (hin : p + dim.size ≤ e) :
+    mkRange bo buf (some e) dim p k
+      = match rangeSpec (rd bo buf (p + dim.numOff) dim.numSize) k with
+        | some (s, l) => .ok ⟨rd bo buf (p + dim.blOff) dim.blSize, s, l⟩
+        | none => .error .precondition := by
+  have hH : sizeCheck (some e) (some p) 0 dim.size = .ok () :=
+    sizeCheck_of_inside (some e) p 0 dim.size (p + dim.size) (fun e' he => by cases he; exact hin) (by omega)
+  cases k with
+  | all => simp [mkRange, cursorRange, groupHeader, rangeSpec, bind, Except.bind, hH]
+  | sub pos =>
+    by_cases hp : pos < rd bo buf (p + dim.numOff) dim.numSize
+    · simp [mkRange, cursorSubrange1, groupHeader, rangeSpec, bind, Except.bind, hH, hp]
+    · simp [mkRange, cursorSubrange1, groupHeader, rangeSpec, bind, Except.bind, hH, hp]
+  | subn pos count =>
+    by_cases hp : pos < rd bo buf (p + dim.numOff) dim.numSize
+    · by_cases hc : count ≤ rd bo buf (p + dim.numOff) dim.numSize - pos
+      · simp [mkRange, cursorSubrange2, groupHeader, rangeSpec, bind, Except.bind, hH, hp, hc]
+      · simp [mkRange, cursorSubrange2, groupHeader, rangeSpec, bind, Except.bind, hH, hp, hc]
+    · simp [mkRange, cursorSubrange2, groupHeader, rangeSpec, bind, Except.bind, hH, hp]
+
+/-- in an unchecked build the same ranges, without the precondition tests -/
+theorem mkRange_unchecked (bo : ByteOrder) (buf : List Nat) (dim : Dim) (p : Nat) (k : RangeKind) (s l : Nat)
+    (h : rangeSpec (rd bo buf (p + dim.numOff) dim.numSize) k = some (s, l)) :
+    mkRange bo buf none dim p k = .ok ⟨rd bo buf (p + dim.blOff) dim.blSize, s, l⟩ := by
+  cases k with
+  | all =>
+    simp only [rangeSpec, Option.some.injEq, Prod.mk.injEq] at h
+    obtain ⟨rfl, rfl⟩ := h
+    simp [mkRange, cursorRange, groupHeader, sizeCheck, sizeOk, bind, Except.bind]
+  | sub pos =>
+    simp only [rangeSpec] at h
+    split at h
+    · simp only [Option.some.injEq, Prod.mk.injEq] at h
+      obtain ⟨rfl, rfl⟩ := h
+      simp [mkRange, cursorSubrange1, groupHeader, sizeCheck, sizeOk, bind, Except.bind]
+    · simp at h
+  | subn pos count =>
+    simp only [rangeSpec] at h
+    split at h
+    · simp only [Option.some.injEq, Prod.mk.injEq] at h
+      obtain ⟨rfl, rfl⟩ := h
+      simp [mkRange, cursorSubrange2, groupHeader, sizeCheck, sizeOk, bind, Except.bind]
+    · simp at h
+
+/-- **iteration clause**: with the cursor at the start of entry `s` of a group
+    whose header is at `p`, a complete iteration of a range of `len` entries
+    (each entry created by `*it` and traversed in order) visits the entries
+    `s .. s+len-1` at their random-access addresses `entryPos g p i` and leaves
+    the cursor at the end of entry `s+len-1` (= start of entry `s+len`) -/
+theorem range_iteration_end (bo : ByteOrder) (buf : List Nat) (dim : Dim) (l : GLevel) (endp : Option Nat)
+    (p wbl s len : Nat) (hg : GoodL 0 l)
+    (hf : ∀ i, s ≤ i → i < s + len →
+      FitL bo buf l (iter (fun q => endL bo buf l.erase q wbl) i (p + dim.size)) wbl)
+    (hin : Inside endp (iter (fun q => endL bo buf l.erase q wbl) (s + len) (p + dim.size))) :
+    iterE (fun c =>
+        match derefEntry l.emptyCtor endp c wbl with
+        | .error e => .error e
+        | .ok (ev, c') => travL bo buf l ev c') len
+        (some (iter (fun q => endL bo buf l.erase q wbl) s (p + dim.size)))
+      = .ok (some (iter (fun q => endL bo buf l.erase q wbl) (s + len) (p + dim.size))) := by
+  have hmono : ∀ q, q ≤ endL bo buf l.erase q wbl := fun q => Nat.le_trans (by omega) (endL_ge bo buf l.erase q wbl)
+  rw [iter_add]
+  apply iterE_end _ (fun q => endL bo buf l.erase q wbl) len
+  intro i hi
+  rw [← iter_add]
+  generalize hq : iter (fun q => endL bo buf l.erase q wbl) (s + i) (p + dim.size) = q
+  have hnext : endL bo buf l.erase q wbl ≤ iter (fun q => endL bo buf l.erase q wbl) (s + len) (p + dim.size) := by
+    have := iter_le_iter _ hmono (s + i + 1) (s + len) (p + dim.size) (by omega)
+    rw [iter_succ', hq] at this; exact this
+  have hinE : Inside endp (endL bo buf l.erase q wbl) := inside_mono hin hnext
+  have hd := derefEntry_ok l.emptyCtor endp q wbl (inside_mono hinE (endL_ge bo buf l.erase q wbl))
+  simp only [hd]
+  have hfi := hf (s + i) (by omega) (by omega)
+  rw [hq] at hfi
+  exact travL_end bo buf l 0 ⟨q, q, wbl, endp⟩ _ hg rfl hfi hinE rfl
 
 end Sbepp.Rt.Cursor
